@@ -57,6 +57,44 @@ def order_check(ctx, r, case, where, seed):
                               f'{name} is stored as {r.values[name]!r}; evaluated again on the same final stores in {label} order its definition gives {out} {val!r}', case)
                 return
     ctx.count('order_check_lines', 2 * len(names))
+    # third pass: freshly constructed form objects (new definitions, new closures) evaluated on the same final stores.
+    # State a definition keeps in its own form object (a partly filled cache, an exhausted generator) is then gone
+    import habutax.form as hform
+    fresh = {}
+    fresh_inputs = {}
+    for fname, f in s.forms.items():
+        try:
+            base_, inst_ = hform.name_and_instance(fname)
+            nf = type(f)(instance=inst_, solver=s)
+            fresh[fname] = {fl.name(): fl for fl in nf.fields()}
+            fresh_inputs.update({inp.name(): inp for inp in nf.inputs()})
+        except Exception:
+            fresh[fname] = None
+    nfresh = 0
+    import enum as pyenum
+    import habutax.inputs as hinputs
+    fi = hinputs.InputStore(s._i.config)          # same file contents, input specifications of the fresh forms
+    specs = dict(fresh_inputs)
+    for iname, inp in s._input_map.items():
+        specs.setdefault(iname, inp)
+    fi.update_input_spec(specs)
+
+    def same_(a, b):
+        # enumerations built per form object (W-2 box 12 codes) are equal when class name, member name and value agree
+        if isinstance(a, pyenum.Enum) and isinstance(b, pyenum.Enum):
+            return (type(a).__name__, a.name, a.value) == (type(b).__name__, b.name, b.value)
+        return closure.same_value(a, b)
+    for name in names:
+        fl = (fresh.get(name.split('.')[0]) or {}).get(name)
+        if fl is None:
+            continue
+        out, val, _ = closure.eval_line(fl, fi, s._v)
+        nfresh += 1
+        if out != 'value' or not same_(val, r.values[name]):
+            ctx.violation(f'{where}:state-in-form-object:{name.split(".")[0].split(":")[0]}.{name.split(".")[1]}',
+                          f'{name} is stored as {r.values[name]!r}; a freshly constructed copy of its form evaluates the same definition on the same final stores to {out} {val!r}', case)
+            return
+    ctx.count('fresh_definition_lines', nfresh)
 
 
 def extra_prog(ctx, program, r, m, case):
